@@ -21,7 +21,8 @@ import logging
 from miasmx.tools.modint import uint1, uint8, uint16, uint32, uint64
 from miasmx.tools.modint import int8, int16, int32, int64
 from miasmx.expression.expression import ExprAff, ExprId, ExprInt, ExprInt32, \
-    ExprMem, ExprOp, ExprCond, ExprSlice, ExprCompose, ExprTop, Expr
+    ExprMem, ExprOp, ExprCond, ExprSlice, ExprCompose, ExprTop, Expr, \
+    key_expr
 from miasmx.expression.expression_helper import expr_simp
 
 try:
@@ -896,7 +897,7 @@ class eval_abs(object):
         return ret
     def dump_mem(self):
         mems = list(self.pool.pool_mem.values())
-        mems.sort()
+        mems.sort(key=lambda x:key_expr(x[0]))
         ret = []
         for m, v in mems:
             ret += [ "%s %s"%(m, v) ]
